@@ -75,7 +75,8 @@ def make_image(d, dim, shape=None, series=False, scalar=True):
     shape = tuple(shape or BASE_SHAPE[:dim])
     full = shape + ((4,) if series else ()) + (() if scalar else (2,))
     arr = np.arange(int(np.prod(full)), dtype=float).reshape(full)
-    kw = dict(space_dim=dim, dimensions=[float(s) * 0.5 for s in shape], scalar=scalar, series=series)
+    kw = dict(space_dim=dim, dimensions=[float(s) * 0.5 * (a + 1) for a, s in enumerate(shape)], scalar=scalar, series=series,
+              origin=[10.0, 20.0, 40.0][:dim])
     if series:
         kw["time"] = list(range(4))
     return d.Image(arr, **kw)
@@ -231,9 +232,24 @@ def oracle(ctx, d, t):
                 ctx.fail(f"C20:to_cartesian_indexing(int,{M})!=name", "integer axis form differs from named form", {"axis": m, "dim": dim})
         # layouts: random arrays
         shapes = [BASE_SHAPE[:dim]] + [tuple(ctx.rng.randint(1, 6) for _ in range(dim)) for _ in range(ctx.pick(6, 60))]
-        for shape in shapes:
+        for nshape, shape in enumerate(shapes):
             ctx.count(("layout", dim, shape), nontrivial=int(np.prod(shape)) > 1)
             arr = np.arange(int(np.prod(shape)), dtype=float).reshape(shape) + 0.5
+            # the helpers take `dim`: arrays may carry trailing payload axes (vector / colour / series); each payload
+            # component must be re-indexed like a scalar array and the payload axes must stay trailing
+            for trailing in ([(3,), (2, 4)][nshape % 2],) if nshape % 3 else ():
+                big = np.arange(int(np.prod(shape + trailing)), dtype=float).reshape(shape + trailing)
+                cbig = m2c(d, dim)(big)
+                comp = tuple(0 for _ in trailing)
+                want = m2c(d, dim)(big[(slice(None),) * dim + comp])
+                okb = (not isinstance(cbig, Raised) and not isinstance(want, Raised) and cbig.shape == want.shape + trailing
+                       and np.array_equal(cbig[(slice(None),) * dim + comp], want))
+                if okb:
+                    bb = c2m(d, dim)(cbig)
+                    okb = not isinstance(bb, Raised) and bb.shape == big.shape and np.array_equal(bb, big)
+                if not okb:
+                    ctx.fail(f"C20:layout-helpers(dim={dim}):payload-axes", "layout helpers mishandle arrays with trailing payload axes (not component-wise / not mutually inverse)",
+                             {"shape": list(shape), "trailing": list(trailing), "dim": dim})
             cimg = m2c(d, dim)(arr)
             if isinstance(cimg, Raised):
                 ctx.fail(f"C20:matrixToCartesianIndexing(dim={dim}):raises", str(cimg), {"shape": shape})
@@ -280,6 +296,13 @@ def oracle(ctx, d, t):
                         ctx.fail(f"C20:Image.slice(name,dim={dim}):raises", f"Image.slice(cut,'{a}') raises {by_name}", {"shape": shape, "axis": a, "cut": float(coord['xyz'.find(a)])})
                     elif by_name.img.shape != by_idx.img.shape or not np.array_equal(by_name.img, by_idx.img) or not np.allclose(by_name.dimensions, by_idx.dimensions):
                         ctx.fail(f"C20:Image.slice(name!=index,dim={dim},axis={a})", "slice by Cartesian name differs from slice by matrix index", {"shape": shape, "axis": a, "voxel": v})
+                    rn_ = call(d.AxisReduction, a, dim)
+                    ri_ = call(d.AxisReduction, p, dim)
+                    if isinstance(rn_, Raised) or isinstance(ri_, Raised) or (rn_.index, rn_.axis) != (ri_.index, ri_.axis) or rn_.index != p or rn_.axis != "xyz".find(a):
+                        ctx.fail(f"C20:AxisReduction(name!=index,dim={dim},axis={a})", "AxisReduction resolves the axis differently by name and by matrix index",
+                                 {"dim": dim, "axis": a, "matrix_index": p,
+                                  "by_name": repr(rn_) if isinstance(rn_, Raised) else [rn_.index, rn_.axis],
+                                  "by_index": repr(ri_) if isinstance(ri_, Raised) else [ri_.index, ri_.axis]})
                     for mode in ("sum", "average"):
                         rn = call(d.reduce_axis, img, a, mode=mode)
                         ri = call(d.reduce_axis, img, p, mode=mode)
